@@ -121,6 +121,7 @@ type Machine struct {
 	InitAllow func(path string) bool
 	Tainted map[string]string // packages whose initialiser could not be completed
 	TaintOK map[string]bool   // tainted packages whose zero-valued globals may be read anyway (stated in the spec)
+	IntTokens bool            // fmt %d of a symbolic integer yields an opaque token instead of forking
 	ConcOn  bool
 	globals map[*ssa.Global]*Value
 
@@ -163,6 +164,7 @@ type Machine struct {
 	clockN      int
 	kvTokens    int
 	tokens      map[string]tokenVal
+	tokenByKey  map[string]string
 	timers      []*Chan
 	afterFuncs  []Value
 
@@ -529,7 +531,7 @@ func (m *Machine) resetRun(item WorkItem) {
 	m.sideCond = map[*Value]*condState{}
 	m.onceRun = map[*Value]bool{}
 	m.clock, m.clockN = nil, 0
-	m.tokens, m.timers, m.afterFuncs, m.kvTokens = nil, nil, nil, 0
+	m.tokens, m.timers, m.afterFuncs, m.kvTokens, m.tokenByKey = nil, nil, nil, 0, nil
 	m.threads, m.cur, m.explore, m.killing = nil, nil, false, false
 	m.finalAb, m.finalPan = nil, nil
 	m.freshID = 0
